@@ -410,4 +410,25 @@ Section CL.
     destruct (Hs g ltac:(lia)) as [S1 S2].
     rewrite enc_ty_eq, norm_ty_eq, EV, ES, Ed, Hce, enc_custom_eq, norm_custom_eq. cbv zeta. rewrite Hnm, E1, E2, E3, S1, S2. split; reflexivity.
   Qed.
+  (** a reflectively encoded structure from the assembly of its fields *)
+  Lemma refl_named st n d n' tag vl items vl' st' :
+    find_tdef S n = Some d -> t_custom_enc d = false ->
+    String.eqb n "ttlv.Value" = false -> String.eqb n "ttlv.Struct" = false ->
+    TailEN st (t_fields d) vl items vl' st' ->
+    exists f0, forall g, (f0 <= g)%nat ->
+      enc_ty g st (TNamed n) tag (VStruct n' vl) = Ok ([IStruct tag items], st') /\
+      norm_ty g st (TNamed n) (VStruct n' vl) = (VStruct n' vl', st').
+  Proof.
+    intros Ed Hce EV ES (f0 & Ht). exists (Datatypes.S f0). intros g Hge. destruct g as [|g]; [lia|].
+    destruct (Ht g ltac:(lia)) as [T1 T2]. rewrite enc_ty_eq, norm_ty_eq, EV, ES, Ed, Hce, T1, T2. split; reflexivity.
+  Qed.
+
+  (** a pointer to something *)
+  Lemma ptr_en st t' tag w iw w' :
+    (exists f0, forall g, (f0 <= g)%nat -> enc_ty g st t' tag w = Ok (iw, st) /\ norm_ty g st t' w = (w', st)) ->
+    exists f0, forall g, (f0 <= g)%nat -> enc_ty g st (TPtr t') tag (VPtr w) = Ok (iw, st) /\ norm_ty g st (TPtr t') (VPtr w) = (VPtr w', st).
+  Proof.
+    intros (f0 & H). exists (Datatypes.S f0). intros g Hge. destruct g as [|g]; [lia|]. destruct (H g ltac:(lia)) as [H1 H2].
+    rewrite enc_ty_eq, norm_ty_eq, H1, H2. split; reflexivity.
+  Qed.
 End CL.
